@@ -54,6 +54,13 @@ func runSolver(name, file string, timeoutS int) solveResult {
 		}
 	}
 	res := solveResult{out: text, secs: secs, solver: name}
+	// an ill-formed script decides nothing (z3 carries on after an error and answers for the rest)
+	for _, l := range strings.Split(text, "\n") {
+		if strings.HasPrefix(strings.TrimSpace(l), "(error") && !strings.Contains(l, "model is not available") && first != "unsat" {
+			res.status = "error"
+			return res
+		}
+	}
 	switch {
 	case first == "unsat":
 		res.status = "unsat"
